@@ -760,6 +760,9 @@ def translate() -> tuple[str, dict]:
     lines.append('Definition all_sources : list (string * list (string * list string)) := [')
     lines.append(';\n'.join(f'  ("{c.label}", sources_{c.label})' for c in censuses))
     lines.append('].')
+    lines.append('Definition class_of_label : list (string * string) := [')
+    lines.append(';\n'.join(f'  ("{c.label}", "{c.info.name}")' for c in censuses))
+    lines.append('].')
     cb = lambda b: 'true' if b else 'false'
     lines += [f'Definition kv_add_single_copied : bool := {cb(kv["__add__"]["copied_single"])}.',
               f'Definition kv_add_iter_copied : bool := {cb(kv["__add__"]["copied_iter"])}.',
